@@ -19,6 +19,7 @@ Theorem denied_layer_not_rendered :
     exists n srcs, In (n, srcs) (select_map (server_layers tree) req []) /\ In s srcs /\
                    permitted Ft_map r n = true.
 Proof. exact wms_map_log_permitted. Qed.
+(* (select_map = all_layers of the request: the map layers of every requested name, before anything is hidden) *)
 
 (* every entry of the render list: its layer is permitted, and for a 'partial' result the entry carries exactly
    the limited_to of that layer's dictionary entry (limited => LimitedLayer) *)
@@ -61,6 +62,15 @@ Theorem implicit_denied_is_dropped :
     exists rl, wms_map tree req (Some r) = W_ok rl (r_lim r) /\
                forall n, In n (map (fun e : rentry => fst (fst e)) rl) -> permitted Ft_map r n = true.
 Proof. exact wms_map_implicit_dropped. Qed.
+
+(* The skipping of layers below an opaque layer (second loop of WMSServer.map, after authorization): a layer that was
+   going to be rendered is dropped in the step of a requested layer only if that layer is opaque and every one of its
+   map layers is permitted and not limited.  A denied or limited opaque layer never hides the layers below it. *)
+Theorem opaque_layer_hides_only_when_completely_permitted :
+  forall d w names acc k,
+    In k (map fst acc) -> ~ In k (map fst (prune_step d (w, names) acc)) ->
+    w_is_opaque w = true /\ forall n, In n names -> exists srcs, assoc n d = Some (None, srcs).
+Proof. exact prune_step_hides. Qed.
 
 Theorem unauthenticated_is_401 :
   forall tree req r,
